@@ -30,6 +30,9 @@ structure Step where
   liqsThisBlock : List Nat := []
   /-- the implementation's error text of a rejected transaction (empty for model steps) -/
   err : String := ""
+  /-- vAMMs on which the sender's stored position was updated (successful OpenPosition / ClosePosition that
+      left a record) earlier in this transaction's block (from the observed history) -/
+  tradedThisBlock : List Nat := []
   deriving Inhabited
 
 namespace W
@@ -615,6 +618,48 @@ def C16.checkLive (s : Step) : List String :=
       "unrestricted-trader-refused-as-restricted"
   | _ => []
 
+/-- C04, second sentence, on the partial-close path: a ClosePosition that closes only part of the position
+    (the position remains) must not succeed when margin + realised PnL of the closed part − funding owed is
+    negative.  The realised PnL is the position's spot PnL times the closed base amount (the size difference,
+    whatever its sign) over the size, exactly as the engine computes it (`SatExtra.sat_C04_partial`). -/
+def C04.checkPartial (s : Step) : List String :=
+  if !s.ok then [] else
+  match engineMsg s with
+  | some (.closePosition v _) =>
+    if !hasPos s.post v s.sender then [] else
+    let p := pos s.pre v s.sender
+    let p' := pos s.post v s.sender
+    let a := p.size.toInt.natAbs
+    let closed := (p.size.toInt - p'.size.toInt).natAbs
+    if a == 0 then [] else
+    (match Engine.positionNotionalPnl (preAt s).q s.pre.engine p .spot with
+     | .ok r =>
+       let realized := trunc (r.2.toInt * (closed : Int)) (a : Int)
+       chk ((p.margin : Int) + realized - fundingOwed s.pre p ≥ 0) "partial-close-accepted-with-bad-debt"
+     | .error _ => [])
+  | _ => []
+
+/-- C13 on a single native deployment: a call that needs a definite amount of coins is accepted only with
+    exactly that amount attached (what the cw20 deployment would pull) — DepositMargin: the deposited amount,
+    and nothing in another denom -/
+def C13.checkNative (s : Step) : List String :=
+  if !s.ok || !s.pre.engine.cfg.native then [] else
+  match engineMsg s with
+  | some (.depositMargin _ amt) =>
+    chk (s.funds.amount == amt && !s.funds.extra) "native-deposit-accepted-with-other-funds-than-the-amount"
+  | _ => []
+
+/-- C16 judged on the observed history alone (the engine's own block stamp is not consulted): a liquidation
+    happened on this vAMM earlier in this block, the sender's stored position was updated earlier in this
+    block and still exists — then neither OpenPosition nor ClosePosition may succeed -/
+def C16.checkHist (s : Step) : List String :=
+  if !s.ok then [] else
+  match engineMsg s with
+  | some (.openPosition v _ _ _ _) | some (.closePosition v _) =>
+    chk (!(s.liqsThisBlock.contains v && s.tradedThisBlock.contains v && hasPos s.pre v s.sender))
+      "second-action-in-liquidation-block(observed-history)"
+  | _ => []
+
 /-- C11, per-position clause on `ClosePosition`: a position that remains after a (partial) close was charged
     its funding and its checkpoint stands at the current cumulative fraction; a position that is gone has
     nothing left to charge -/
@@ -636,5 +681,10 @@ def allChecks (s : Step) : List (String × List String) :=
    ("C14", C14.check s), ("C15", C15.check s), ("C16", C16.check s), ("C17", C17.check s),
    ("C18", C18.check s), ("C20", C20.check s),
    ("C09", C09.checkLive s), ("C16", C16.checkLive s), ("C11", C11.checkClose s)]
+
+/-- further clauses evaluated by every run (kept apart from `allChecks`, whose list the capstone theorem
+    enumerates); their refinement theorems are in `Perp/Props/SatExtra.lean` -/
+def extraChecks (s : Step) : List (String × List String) :=
+  [("C16", C16.checkHist s), ("C04", C04.checkPartial s), ("C13", C13.checkNative s)]
 
 end Perp.Spec
